@@ -1,8 +1,8 @@
 import XsVerif.Props.C06
 open XsVerif.Props.C06
 #print axioms lazy_nsmaps_eq_inScope
-#print axioms eager_nsmaps_counterexample
-#print axioms eager_nsmaps_partial
+#print axioms eager_nsmaps_eq_lazy
+#print axioms eager_nsmaps_eq_inScope
 #print axioms iter_lazy_order
 #print axioms iter_lazy_perm
 #print axioms iter_depth_spec
